@@ -26,6 +26,24 @@ Theorem C19_on_only_by_trigger : forall (c : chan) (s : apu) (a v : N),
 Proof. exact on_only_by_trigger. Qed.
 Print Assumptions C19_on_only_by_trigger.
 
+(* Channel 1's trigger with a non-zero sweep shift performs the frequency calculation at once: the channel is on
+   afterwards iff the DAC is on and, in addition mode, f + f / 2^shift <= 2047 (f = the 11-bit frequency after the
+   write; subtraction mode never overflows) - from every state.  In particular an overflowing trigger leaves the
+   channel off. *)
+Theorem C19_trigger_sweep_overflow : forall (s : apu) (v : N),
+  is_on s = true -> trig_bit v = true ->
+  en1 (apu_bus_write s 0xFF14 v) =
+  sqDac (ch1 s) && negb (sweep_calc_overflows (sqFreq (nr14_freq s v)) (swShift (sw1 s)) (swIncrease (sw1 s))).
+Proof. exact trigger_sweep_overflow. Qed.
+Print Assumptions C19_trigger_sweep_overflow.
+
+Theorem C19_trigger_overflow_documented : forall (s : apu) (v : N),
+  trigger_overflow Ch1 s v =
+  sweep_calc_overflows (sqFreq (nr14_freq s v)) (swShift (sw1 s)) (swIncrease (sw1 s)) /\
+  sqFreq (nr14_freq s v) < 2048.
+Proof. intros s v. split; [exact (trigger_overflow_spec s v) | exact (nr14_freq_lt s v)]. Qed.
+Print Assumptions C19_trigger_overflow_documented.
+
 (* ... and never by the passage of time. *)
 Theorem C19_time_never_switches_on : forall (c : chan) (s : apu),
   (en c (fst (apu_tick_clock s)) = true -> en c s = true) /\
